@@ -123,6 +123,16 @@ def gen_case(rng):
                                          rng.uniform(0.9, 1.0)])
             o_v[i] = ref_v[i] + rng.choice([-1, 1]) * tval * den
         others.append([o_v, o_e])
+    if nds >= 2 and rng.random() < 0.08:
+        # an exact compared dataset (no errors at all) that agrees with the
+        # reference in a bin where the reference has no error either,
+        # followed by other datasets compared with the same reference
+        k = rng.randrange(nds - 1)
+        others[k][1][:] = 0.0
+        i = rng.randrange(size)
+        ref_e[i] = 0.0
+        others[k][0][i] = ref_v[i]
+        specials.add('exact_dataset_first')
     # special values
     if rng.random() < 0.35:
         for _ in range(rng.randint(1, 3)):
